@@ -164,6 +164,13 @@ func svNewBatch(checkCharge bool) {
 		return
 	}
 	ids, fees := e.batchRequests(rc.BatchCounter)
+	if rc.State == types.PAUSED {
+		// the consumer could not pay: the context was paused automatically and the batch must not go out
+		idsNext, _ := e.batchRequests(prevBatches + 1)
+		verifAssert(charged.Sign() == 0 && rc.BatchCounter == prevBatches && len(idsNext) == 0 && !e.k.HasRequestBatchExpiration(e.ctx, e.ctxID), "a context paused for lack of funds issues nothing and is charged nothing")
+		verifCover("not-issued")
+		return
+	}
 	if len(ids) == 0 {
 		verifCover("not-issued")
 		verifAssert(charged.Sign() == 0, "nothing is charged when no request is issued")
@@ -172,7 +179,11 @@ func svNewBatch(checkCharge bool) {
 	verifCover("issued")
 	discounted := hasDiscount && charged.Cmp(fees) != 0
 	if !checkCharge {
-		verifAssume(charged.Cmp(fees) == 0 || discounted)
+		// (the charge identity under a discount is the subject of the listed C07 finding; without a
+		// discount it must hold here as well)
+		if !hasDiscount {
+			verifAssert(charged.Cmp(fees) == 0, "the consumer is charged exactly the sum of the fees recorded on the requests issued (no discount)")
+		}
 	} else {
 		verifAssertKnown(charged.Cmp(fees) == 0, "the consumer is charged exactly the sum of the fees recorded on the requests issued", "C07-undiscounted-charge", discounted)
 	}
